@@ -27,6 +27,9 @@ BOOL = Leaf("Bool", portable=True, spec="bool")
 LE16 = Leaf("le::U16", True); LE32 = Leaf("le::U32", True); LE64 = Leaf("le::U64", True)
 BE16 = Leaf("be::U16", True); BE32 = Leaf("be::U32", True); BE64 = Leaf("be::U64", True)
 LEI32 = Leaf("le::I32", True); LEF32 = Leaf("le::F32", True); BEF64 = Leaf("be::F64", True)
+I16 = Leaf("i16"); I64 = Leaf("i64"); I128 = Leaf("i128"); ISIZE = Leaf("isize")
+LEI16 = Leaf("le::I16", True); BEI16 = Leaf("be::I16", True); BEI32 = Leaf("be::I32", True); LEI64 = Leaf("le::I64", True); BEI64 = Leaf("be::I64", True)
+BEF32 = Leaf("be::F32", True); LEF64 = Leaf("le::F64", True)
 LADDER = [U8, U16, U32, U64, U128]
 
 class Arr(T):
@@ -441,6 +444,10 @@ def catalog(thorough):
     add(get(SStruct, [U8, U32], "tuple")); add(get(SStruct, [BOOL, U16, K2], "tuple"))
     PP = get(SStruct, [U8, LE16, LE32, Arr(LE64, 2)])       # portable struct
     add(PP); add(get(SStruct, [BE32, BOOL, LEF32])); add(get(SStruct, [BEF64, I8]))
+    # every portable scalar alias and every native primitive appears in at least one composite
+    P_allp = add(get(SStruct, [LE16, BE16, LEI16, BEI16, LE32, BE32, LEI32, BEI32, LE64, BE64, LEI64, BEI64, LEF32, BEF32, LEF64, BEF64, BOOL]))
+    add(get(SStruct, [I8, I16, I32, I64, I128, ISIZE, USIZE, F32, F64]))
+    add(get(UStruct, [BEI16, Vec(LEI64, BE16)])); add(Vec(BEF32, LE32)); add(Vec(LEI16, BE64))
     P_u8u32 = get(SStruct, [U8, U32]); P_bool = get(SStruct, [U8, BOOL])
     add(get(SStruct, [P_u8u32, U8]))                        # nested sized struct
     # arrays whose element has SIZE != ALIGN and a validity constraint
@@ -474,7 +481,7 @@ def catalog(thorough):
     VP = [(UNIT, U8), (U8, U8), (U8, U16), (U8, U32), (U16, U8), (U32, U8), (U64, U8), (U64, U32), (U128, U8), (ARR[0], U32), (BOOL, U8), (BOOL, U32),
           (LE32, LE16), (U16, BE32), (P_u8u32, U16), (Q_small, U8), (K3, U8), (I32, U16), (P_bool, U8), (U8, USIZE), (U8, U64), (LE16, U8), (U8, LE64), (Arr(P_bool, 2), U8), (Arr(BOOL, 3), U16)]
     for e, l in VP: add(Vec(e, l))
-    for l in [U8, U16, U32, USIZE, LE16, BE32]: add(Str(l))
+    for l in [U8, U16, U32, U64, USIZE, LE16, BE32, LE64]: add(Str(l))
     V88 = Vec(U8, U8); V_i32_16 = Vec(I32, U16); V_b8 = Vec(BOOL, U8); S8 = Str(U8)
     # unsized structs
     prefixes = [[], [U8], [U32], [U8, U16], [U64, U8], [BOOL], [K3], [U8, U32], [U16, U64]]
@@ -536,6 +543,7 @@ def catalog(thorough):
         for l in ls:
             add(Flex(it, l))
     add(Flex(U64, U8)); add(Flex(V88, U32)); add(Flex(U16, LE16)); add(Flex(Vec(U16, U16), U16))
+    add(Flex(V88, U64)); add(Flex(V88, USIZE)); add(Flex(U8, BE32)); add(Flex(Str(U8), LE64)); add(Flex(U16, BE16))
     # an item type with a destructor
     pd = Leaf("PDrop", spec="sstruct_with_drop(u8,u16)")
     add(pd); add(Flex(pd, U8)); add(Vec(pd, U8)); add(Flex(pd, U16))
